@@ -7,6 +7,7 @@ from checks import addrmgr
 PROPS = ["C10"]
 TX_EVERY = {"quick": 8, "thorough": 4}
 TX_NSIM = {"quick": 100, "thorough": 2000}
+WALLET_NSIM = {"quick": 12, "thorough": 120}
 
 
 def run(prop, tier, seed, scratch, replay=None):
@@ -16,6 +17,9 @@ def run(prop, tier, seed, scratch, replay=None):
         if m.get("sig", "").startswith("txstore:"):
             from checks import txstore
             return txstore.run(prop, tier, seed, scratch, replay)
+        if m.get("sig", "").startswith("spend:"):
+            from checks import spend
+            return spend.run(prop, tier, seed, scratch, replay)
         return addrmgr.run(prop, tier, seed, scratch, replay)
 
     # part 1: address manager (writes the evidence skeleton)
@@ -46,6 +50,21 @@ def run(prop, tier, seed, scratch, replay=None):
     vlib.run_driver(drv, ["-in", allin, "-graphs", graphs, "-out", report, "-prop", "C10", "-workers", vlib.NCPU], timeout=7200)
     rep = vlib.load_report(report)
     res.add_report(rep)
+
+    # part 3: wallet level - the k-th write of a whole SendOutputs / SendOutputsWithInput (all its database
+    # transactions, whichever goroutine of the wallet performs them) fails; spec/Spend.tla walks
+    wdrv = vlib.build_driver(scratch, "replay-wallet")
+    wtr = scratch.path("w-sim.ndjson")
+    wsim = vlib.run_tlc(scratch, "Spend.tla", "MC_Spend_sim.cfg", simulate=WALLET_NSIM[tier], depth=29, seed=seed,
+                        out_traces=wtr, tag="wsim", timeout=1800)
+    if wsim["errors"]:
+        raise vlib.Broken("Spend simulation failed: %s" % wsim["errors"][:3])
+    wreport = scratch.path("w-report.json")
+    vlib.run_driver(wdrv, ["-in", wtr, "-out", wreport, "-spec", "spend", "-prop", "C10", "-seed", seed, "-workers", vlib.NCPU], timeout=7200)
+    wrep = vlib.load_report(wreport)
+    res.add_report(wrep)
+    if (wrep.get("extra") or {}).get("faults_injected", 0) == 0:
+        raise vlib.Broken("wallet-level part injected no fault")
     c1 = ev1["coverage"]
     res.coverage = {
         "evaluations": c1.get("evaluations", 0) + rep["checks"],
@@ -60,6 +79,10 @@ def run(prop, tier, seed, scratch, replay=None):
         "addrmgr_part": {k: c1.get(k) for k in ("states", "transitions", "traces_validated_against_impl", "replayed_steps")},
         "txstore_part": {"states": bfs["distinct"], "transitions": bfs["generated"], "traces_validated_against_impl": rep["traces"],
                          "replayed_steps": rep["steps"]},
+        "wallet_part": {"behaviours_replayed": wrep["traces"], "faults_injected": (wrep.get("extra") or {}).get("faults_injected", 0),
+                        "fault_free_runs": (wrep.get("extra") or {}).get("fault_free_runs", 0),
+                        "operations": "Wallet.SendOutputs / SendOutputsWithInput with a label (coin selection, change address, signing, "
+                                      "recording, label, broadcast)"},
         "exhaustive": False,
     }
     res.assumptions = ["fault model: exactly one Put/Delete/CreateBucket/DeleteNestedBucket/cursor Delete/sequence call fails per attempt; reads never fail",
